@@ -13,7 +13,7 @@ BUDGET_S = {'quick': 80, 'thorough': 180}
 PER_BATCH = {'quick': 300, 'thorough': 5000}
 FLOORS = {
     'quick': {'distinct_nontrivial': 1500, 'fork-trees': 1200, 'handles-finished': 8000, 'results-rechecked-after-later-operations': 40000,
-              'accepts-observations': 8000, 'accepts==reference': 3000, 'resume-cases': 1500, 'resume-on-forks': 3000, 'feature:terminal-names-that-are-not-upper-case': 40, 'on_error-cases': 800,
+              'accepts-observations': 8000, 'accepts==reference': 3000, 'resume-cases': 1500, 'resume-on-forks': 3000, 'feature:terminal-names-that-are-not-upper-case': 40, 'feature:empty-node-positioned-by-a-later-reduction': 20, 'on_error-cases': 800,
               'feature:fork:copy': 2000, 'feature:fork:as_immutable': 2000, 'feature:fork:immutable-feed': 4000, 'feature:fork:as_mutable': 800,
               'feature:fork:copy.copy': 500, 'feature:diverging-forks-share-reduced-subtree': 1500, 'feature:embedded-transformer': 300,
               'feature:inlined-left-recursion': 300, 'feature:placeholders': 300, 'feature:error-in-branch': 500},
@@ -464,6 +464,16 @@ RICH = {'rules': [
     'alphabet': list('7x=;k{},+*()[]-?!')}
 
 
+# a tree that matched nothing (y) waits on the value stack and gets its position from the ?-rule that is reduced later:
+# forks that continue differently after ")" must each see their own span for it
+EMPTY_NODE = {'rules': [
+    gen.rule('start', [gen.alt([['q', ['r', 'x'], '+', 0, 0]])]),
+    gen.rule('x', [gen.alt([gen.LIT('('), ['r', 'y'], gen.LIT(')')]), gen.alt([gen.LIT('('), ['r', 'y'], gen.LIT(')'), gen.LIT('!')]),
+                   gen.alt([gen.LIT('['), ['r', 'y'], ['r', 'y'], gen.LIT(']'), ['m', [gen.alt([gen.LIT('!'), gen.LIT('!')])]]])], mods='?'),
+    gen.rule('y', [gen.alt([])]),
+], 'terms': [], 'ignore': [], 'start': ['start'], 'alphabet': list('()![]')}
+
+
 def run_batch(ctx):
     rng = ctx.rng
     quick = ctx.tier == 'quick'
@@ -472,7 +482,10 @@ def run_batch(ctx):
             ctx.count('stopped-on-time-budget')
             break
         lexer = rng.choice(['basic', 'contextual'])
-        if i % 3 == 0:
+        if i % 9 == 4:
+            G = EMPTY_NODE
+            ctx.count('feature:empty-node-positioned-by-a-later-reduction')
+        elif i % 3 == 0:
             G = RICH
         else:
             G = gen.lalr_friendly(rng, p_perturb=0.1)
